@@ -112,7 +112,11 @@ impl<A: AcceptableMasterList, C: Clock, F: Filter, R: Rng, S: PtpInstanceStateMu
                 && self.port_identity.port_number > message.header.source_port_identity.port_number
             {
                 self.multiport_disable = Some(Duration::ZERO);
-                self.set_forced_port_state(PortState::Passive);
+                // a port disabled by a peer delay fault stays disabled until a clean
+                // peer delay exchange, whatever else it hears
+                if !matches!(self.port_state, PortState::Faulty) {
+                    self.set_forced_port_state(PortState::Passive);
+                }
             }
             // A TLV that does not fit into an (otherwise empty) announce of this instance
             // can never be forwarded; handing it to the forwarder anyway would leave it at
@@ -291,7 +295,7 @@ impl<A, C: Clock, F: Filter, R: Rng, S: PtpInstanceStateMutex> Port<'_, InBmca, 
                         }
                     }
                 } else if self.multiport_disable.is_some() {
-                    if !matches!(self.port_state, PortState::Passive) {
+                    if !matches!(self.port_state, PortState::Passive | PortState::Faulty) {
                         self.set_forced_port_state(PortState::Passive);
                     }
                 } else {
